@@ -157,10 +157,62 @@ def as_flatmap(t):
     return t
 
 
+def merge_chains_by_evaluation(prog, rep, R, c, site, wrapped=False):
+    """Decide merge_chains by partial evaluation on the nesting grid (shapeexec): the result must be a Chain whose
+    members are exactly the members of the nested structure, in order, none of them a Chain (and, with wrapped=True,
+    each the very object that went in - a wrapper node stays a wrapper node).  Returns False when the method uses
+    something the evaluator does not model (the caller falls back to its structural patterns)."""
+    from .shapeexec import Budget, ChainNode, Evaluator, Unsupported, Unwrapped, build, inorder, nesting_grid
+    results = []
+    for shape in nesting_grid(wrapped):
+        node, _ = build(shape)
+        try:
+            res = Evaluator(prog, c).call_method(node, "merge_chains")
+        except Unsupported:
+            return False
+        except Budget:
+            rep.undecided(R, site, "Chain.merge_chains", f"evaluation on {node!r} does not finish within the step budget")
+            return True
+        except RecursionError:
+            rep.undecided(R, site, "Chain.merge_chains", f"evaluation on {node!r} recurses without bound")
+            return True
+        results.append((node, res))
+    bad = None
+    for node, res in results:
+        want = inorder(node)
+        if not isinstance(res, ChainNode):
+            bad = (node, res, "does not return a Chain")
+            break
+        got = list(res.children)
+        if any(isinstance(x, ChainNode) for x in got):
+            bad = (node, res, "a nested Chain remains")
+            break
+        same_members = len(got) == len(want) and all(
+            (g is w) or (not wrapped and isinstance(g, Unwrapped) and g.leaf is w) for g, w in zip(got, want))
+        if not same_members:
+            unwrapped = [g for g in got if isinstance(g, Unwrapped)]
+            why = ("a wrapped member comes back unwrapped: its NonTrainable / reparameterisation marker is lost" if wrapped and
+                   unwrapped and [getattr(g, "leaf", g) for g in got] == want else "the members come back in a different order "
+                   "(or not all of them)")
+            bad = (node, res, why)
+            break
+    n = len(results)
+    if bad is None:
+        how = f"by partial evaluation on {n} nesting shapes the result is the in-order member sequence"
+        for k2 in ("start", "pass", "until-flat", "result"):
+            rep.holds(R, site, f"Chain.merge_chains:{k2}", how, nontrivial=(k2 == "pass"))
+        return True
+    node, res, why = bad
+    rep.violated(R, site, "Chain.merge_chains:in-place", f"{node!r}.merge_chains() evaluates to {res!r}: {why}")
+    return True
+
+
 def _merge_chains(prog, rep, R, c):
     owner, fn = prog.method(CHAIN, "merge_chains")
     _OWNER.update(fn=fn, qual=f"{owner.qualname}.merge_chains")
     site = method_site(prog, c, "merge_chains")
+    if merge_chains_by_evaluation(prog, rep, R, c, site):
+        return
     body = [s for s in fn.body if not (isinstance(s, ast.Expr) and isinstance(s.value, ast.Constant))]
     whiles = [s for s in body if isinstance(s, ast.While)]
     if not whiles and _merge_chains_recursive(prog, rep, R, c, site, body):
